@@ -7,7 +7,7 @@ R-C17-4  (thorough) compile-fail witnesses: the validated types cannot be built 
 """
 from bpsa.normal import canon
 from bpsa.terms import walk, short
-from .common import compare_table, guard_table
+from .common import compare_table, guard_table, fmt_atom
 from . import panics
 
 LEVEL_TEXT = ('Static analysis (guard normal forms over MIR dominators). Decides that the conjunction of guards protecting '
@@ -30,7 +30,10 @@ TABLE = {
     },
     # reached through RangeParameters::init: fails only when a party index does not fit u32 (the derivation label has 4 index bytes);
     # any other rejection here narrows the documented domain of RangeParameters::init
-    'BulletproofGens::<P>::new': {'expected': [], 'extra': [lambda c, a: a[0] == 'succ' and a[1].startswith('try_from(idx(') and any(x[0] == 'forall' for x in c)]},
+    # (party indexes are encoded as u32: the conversion of the loop index, or of the party capacity once up front, refuses the same
+    # capacities above u32::MAX -- none of which is a usable input)
+    'BulletproofGens::<P>::new': {'expected': [], 'extra': [lambda c, a: a[0] == 'succ' and a[1].startswith('try_from(idx(') and any(x[0] == 'forall' for x in c),
+                                                            lambda c, a: a == ('succ', 'try_from(p2)') and not c]},
     'RangeStatement::<P>::init': {
         'expected': [((), P('is_power_of_two', 'len(p2)')), ((), ('cmp', 'Eq', 'len(p2)', 'len(p3)')),
                      ((), ('cmp', 'Le', 'len(p2)', 'p1.bp_gens.party_capacity')),
@@ -91,6 +94,66 @@ def stored_fields(ctx, only=None):
                       'field %s of the constructed value is %s, expected the unadjusted %s' % (f, got.get(f), want), ctx.where(body))
 
 
+def degree_table(ctx):
+    """The conversion integer -> ExtensionDegree written as a lookup in a constant table instead of a `match`:
+        value.checked_sub(MINIMUM).and_then(|i| TABLE.get(i)).copied().ok_or(..)
+    Returns {'fn': body of the table-driven impl, 'other': body of the impl that delegates to it (or None), 'map': {value: variant name},
+    'why': text} when that is the form, None otherwise.  The accepted values are base .. base + len(TABLE) - 1 (the subtraction fails below
+    base, the lookup fails from len(TABLE) on), and value v yields TABLE[v - base]: read off the table, nothing is run."""
+    from bpsa.terms import walk
+    impls = [ctx.fn(sfx, None, required=False) for sfx in ('TryFrom<usize>>::try_from', 'TryFrom<u8>>::try_from')]
+    impls = [b for b in impls if b is not None]
+    for b in impls:
+        rt = ctx.eng.return_term(b)
+        t = rt
+        while t.tag in ('mut', 'via') or (t.tag == 'call' and t[1].split('::')[-1] in ('copied', 'cloned', 'ok_or', 'ok_or_else') and t[2]):
+            t = t[1] if t.tag == 'mut' else t[2] if t.tag == 'via' else t[2][0]
+        if t.tag != 'elemat':
+            continue
+        tab, idx = t[1], t[2]
+        while tab.tag in ('mut', 'via'):
+            tab = tab[1] if tab.tag == 'mut' else tab[2]
+        while idx.tag in ('mut', 'via', 'cast'):
+            idx = idx[1] if idx.tag == 'mut' else idx[2]
+        if tab.tag == 'item' and tab[1] in ctx.facts.consts:
+            tab = ctx.eng.return_term(ctx.facts.consts[tab[1]])
+        if tab.tag != 'array' or not all(x.tag == 'adt' and x[1].split('::')[0].endswith('ExtensionDegree') or (x.tag == 'adt' and 'ExtensionDegree' in x[1]) for x in tab.args):
+            continue
+        if not (idx.tag == 'call' and idx[1].split('::')[-1] == 'checked_sub' and len(idx[2]) == 2):
+            continue
+        src, base = idx[2]
+        while src.tag in ('mut', 'via', 'cast'):
+            src = src[1] if src.tag == 'mut' else src[2]
+        base = ctx.eng.expand(base)
+        while base.tag in ('mut', 'via'):
+            base = base[1] if base.tag == 'mut' else base[2]
+        bval = base[1] if base.tag == 'const' and isinstance(base[1], int) else None
+        if bval is None and base.tag == 'cast':
+            # `MINIMUM = Self::DefaultPedersen as usize`: the discriminant of a named variant
+            inner = base[2]
+            if inner.tag == 'discr' and inner[1].tag == 'adt':
+                adt = ctx.facts.adts.get('generators::pedersen_gens::ExtensionDegree')
+                dv = {v['name']: int(v['discr']) for v in adt['variants']} if adt else {}
+                bval = dv.get(inner[1][1].split('::')[-1])
+        if bval is None or not (src.tag == 'param' and src[2] == 1):
+            continue
+        names = [x[1].split('::')[-1] for x in tab.args]
+        other = next((o for o in impls if o is not b), None)
+        deleg = None
+        if other is not None:
+            ort = ctx.eng.return_term(other)
+            calls = [x for x in walk(ort) if x.tag == 'call' and x[1] == b.path]
+            if calls and len(calls[0][2]) == 1:
+                a0 = calls[0][2][0]
+                while a0.tag in ('mut', 'via', 'cast') or (a0.tag == 'call' and a0[1].split('::')[-1] in ('from', 'into', 'try_from') and len(a0[2]) == 1):
+                    a0 = a0[1] if a0.tag == 'mut' else a0[2] if a0.tag in ('via', 'cast') else a0[2][0]
+                if a0.tag == 'param' and a0[2] == 1:
+                    deleg = other
+        return {'fn': b, 'other': deleg, 'map': {bval + k: n for k, n in enumerate(names)},
+                'why': 'TABLE[value - %d] with TABLE = %s' % (bval, names)}
+    return None
+
+
 def domain_of(ctx, suffixes, rule='R-C17-1'):
     """the domain tables of the named functions only (a clause shared with the properties whose honest path calls them: a function that
     refuses part of its documented domain refuses honest inputs of its callers)"""
@@ -107,9 +170,18 @@ def domain_of(ctx, suffixes, rule='R-C17-1'):
 def run(ctx):
     rep = ctx.rep
     n_guards = 0
+    dt = degree_table(ctx)
     for suffix, tab in TABLE.items():
         body = ctx.fn(suffix, 'R-C17-1')
         if body is None:
+            continue
+        if dt is not None and body in (dt['fn'], dt['other']):
+            # the conversion is a table lookup: its domain is read off the table (same obligation keys as the `match` form)
+            vals = sorted(dt['map'])
+            key = 'R-C17-1/%s/%s' % (suffix, fmt_atom(((), TABLE[suffix]['expected'][0][1])))
+            rep.check(vals == [1, 2, 3, 4, 5, 6], 'R-C17-1', key, 'the conversion accepts exactly 1..=6 (%s%s)' % (dt['why'], '' if body is dt['fn'] else ', through ' + dt['fn'].path.split(' as ')[-1]),
+                      'the conversion accepts %s (%s)' % (vals, dt['why']), ctx.where(body))
+            n_guards += 1
             continue
         rows = compare_table(ctx, 'R-C17-1', suffix, body, tab['expected'], tab['extra'])
         n_guards += len(rows)
@@ -146,7 +218,13 @@ def run(ctx):
                   'ExtensionDegree discriminants are exactly 1..=6: %s' % discr, where=adt['span']['file'])
         sw = tf.block[0]['term']
         nmap = 0
-        if sw['k'] == 'switch':
+        if dt is not None:
+            # the table form: value v yields TABLE[v - base]
+            for v, got in sorted(dt['map'].items()):
+                nmap += 1
+                rep.check(discr.get(got) == int(v), 'R-C17-2', 'R-C17-2/arm/%s' % v, 'try_from(%s) yields the variant with discriminant %s (%s, table position %d)' % (v, v, got, v - min(dt['map'])),
+                          'try_from(%s) yields %s whose discriminant is %s' % (v, got, discr.get(got)), ctx.where(dt['fn']))
+        elif sw['k'] == 'switch':
             for v, tgt in sw['arms']:
                 got = None
                 for s in tf.block[tgt]['stmts']:
